@@ -261,6 +261,8 @@ VH_AREA(bits) {
             if (op == 7 && rng.chance(0.3)) for (size_t i = 0; i < n; i++) y[i] = y[i] && !x[i];
             size_t kk = rng.chance(0.6) ? rng.below(n + 2) : rng.pick(std::vector<size_t>{0, 1, 63, 64, 65, 127, 128, 129, 200});
             if (op == 11 || op == 12) kk = std::min(kk, n);
+            // shifts far beyond the end (more than a word beyond the padded size): everything must be shifted out
+            { Rng side = rng.sub(784); if ((op == 9 || op == 10) && side.chance(0.3)) { kk = n + 64 * (1 + side.below(9)) + side.below(64); st.hit("vec.shift_far_beyond_end"); } }
             out_case(k, std::string("vec ") + VNAMES[op] + " n=" + std::to_string(n) + " k=" + std::to_string(kk));
             st.hit(std::string("vec.") + VNAMES[op]);
             st.hit("n_mod64." + std::to_string(n % 64 == 0 ? 0 : n % 64 == 1 ? 1 : n % 64 == 63 ? 63 : 2));
